@@ -223,8 +223,18 @@ Section NodeFrame.
     conv_kind cls rid cv k nm items props req ap oneo s0 = Some (te, s1) -> frame s0 s1.
   Proof.
     intros HQi HQp HQa HQo0. destruct (arms_props Q oneo HQo0) as [HQo HQoB].
-    destruct k as [| | | |mx mn pat|r|raws|deny| | |c|c|r| |tg]; cbn [conv_kind];
+    destruct k as [| | | |mx mn pat|r|raws|deny| | |c|c|r| |tg|]; cbn [conv_kind];
       try (intro H; injection H as _ <-; apply frame_refl).
+    11: { (* KOpt *)
+      destruct oneo as [[|a [|b [|]]]|]; try discriminate. cbn [OForall] in HQoB.
+      assert (Hgen : forall arm, Q arm ->
+                match cv arm (inner_name nm) s0 with
+                | Some (te0, sa) => let '(i, sb) := assign te0 sa in Some (DOption i, sb)
+                | None => None end = Some (te, s1) -> frame s0 s1).
+      { intros arm HQarm H. destruct (cv arm (inner_name nm) s0) as [[te0 sa]|] eqn:Hc; [|discriminate].
+        destruct (assign te0 sa) as [i sb] eqn:Ha. injection H as _ <-.
+        eapply frame_trans; [exact (Hcv _ HQarm _ _ _ _ Hc)|exact (assign_frame _ _ _ _ Ha)]. }
+      destruct (nullish a); [exact (Hgen b (Forall_inv (Forall_inv_tail HQoB)))|exact (Hgen a (Forall_inv HQoB))]. }
     10: { destruct tg as [|tg|tg ct|]; (destruct (type_name cls nm); [|discriminate]);
             (destruct oneo as [bs|]; [|discriminate]); cbn [OForall] in HQo, HQoB.
           - destruct (conv_xbranches cv nm bs s0) as [[[rvs deny] sa]|] eqn:Hb; [|discriminate].
@@ -685,6 +695,9 @@ Section NodeExt.
   Proof.
     intros HQi HQp HQa HQo0. destruct (arms_props Q oneo HQo0) as [HQo HQoB].
     destruct k; cbn [conv_kind]; try reflexivity.
+    6: { (* KOpt *)
+      destruct oneo as [[|a [|b [|]]]|]; try reflexivity. cbn [OForall] in HQoB.
+      destruct (nullish a); [rewrite (Hcv _ (Forall_inv (Forall_inv_tail HQoB)))|rewrite (Hcv _ (Forall_inv HQoB))]; reflexivity. }
     5: { destruct tg as [|tg|tg ct|]; (destruct (type_name cls nm); [|reflexivity]);
            (destruct oneo as [bs|]; [|reflexivity]); cbn [OForall] in HQo, HQoB.
          - rewrite (conv_xbranches_ext _ _ HQo). reflexivity.
